@@ -626,3 +626,34 @@ Proof.
   - intros x [].
   - intros p [].
 Qed.
+
+(* ================================================================== keys / values / pairs *)
+Theorem keys_values_pairs (m : list (key * value)) :
+  length (filter_keys m) = length m /\ length (filter_values m) = length m /\
+  filter_pairs m = map (fun kv => VArr [fst kv; snd kv]) (combine (filter_keys m) (filter_values m)) /\
+  filter_length (VMap m) = filter_length (VArr (filter_keys m)) /\
+  (forall i k v, nth_error (filter_keys m) i = Some k -> nth_error (filter_values m) i = Some v ->
+     nth_error (filter_pairs m) i = Some (VArr [k; v])).
+Proof.
+  unfold filter_keys, filter_values, filter_pairs.
+  split; [apply map_length|]. split; [apply map_length|]. split.
+  - induction m as [|kv t IH]; cbn; trivial. rewrite IH. reflexivity.
+  - split; [cbn; rewrite map_length; reflexivity|].
+    induction m as [|kv t IH]; intros i k v Hk Hv; destruct i; cbn in *; try discriminate.
+    + inversion Hk; inversion Hv; subst. reflexivity.
+    + apply IH; trivial.
+Qed.
+
+(* every key returned by `keys` finds, through m[k], the value at the same position of `values` *)
+Theorem keys_lookup (m : list (key * value)) : wf (VMap m) ->
+  forall i k v, nth_error m i = Some (k, v) -> get_item_map m (key_to_value k) = ROk v.
+Proof.
+  intros Wm i k v H. apply wf_map in Wm as [Kw [Kd _]].
+  assert (Hin : In (k, v) m) by (eapply nth_error_In; eauto).
+  assert (Kk : key_wf k = true) by (unfold kwf in Kw; rewrite Forall_forall in Kw; apply (Kw (k, v)); trivial).
+  unfold get_item_map.
+  assert (A : exists k', as_key (key_to_value k) = Some k' /\ key_norm k' = key_norm k /\ key_wf k' = true).
+  { destruct k; cbn; eauto. }
+  destruct A as [k' [A1 [A2 A3]]]. rewrite A1.
+  rewrite (map_get_unique m k' k v); trivial. apply key_eq_norm; auto.
+Qed.
